@@ -295,6 +295,9 @@ func (f *Func) errHandled(body *Body, call *ast.CallExpr) (bool, string) {
 					return Cut
 				}
 			}
+			if !g.ReturnMayBeNil(r) {
+				return Cut // another error is reported on this path: the operation is not acknowledged
+			}
 			return Hit
 		}
 		// reassigned before being looked at?
